@@ -203,8 +203,9 @@ class SelectModule:
 
 
 class ClockModule:
-    """timeit.default_timer: non-decreasing instants (integer seconds as a
-    symbolic int, so that int(1000 * t) stays an integer term)"""
+    """timeit.default_timer: non-decreasing instants (integer seconds below
+    2^20 as a symbolic int, so that int(1000 * t) stays an integer term and
+    the multiplication by a constant stays within reach of the bit-blaster)"""
 
     def __init__(self, world):
         self.world = world
@@ -219,7 +220,7 @@ class ClockModule:
             v = max(v, self.last)
             self.last = v
             return v
-        t = ctx.int('clock%d' % self.k, 0, (1 << 40) - 1)
+        t = ctx.int('clock%d' % self.k, 0, (1 << 20) - 1)
         ctx.add(E(t) >= E(self.last))
         self.last = t
         return t
